@@ -135,7 +135,7 @@ def run(ck: Check):
     for c in langs:
         if MAX_DIGITS[c] == 4:
             jobs.append((c, 'low4'))            # es/pt: ranks 1..1999 (the speller constrains the thousands digit)
-        elif ck.tier == 'quick' and c == 'de':
+        elif ck.tier == 'quick' and c in ('de', 'fr'):
             jobs.append((c, 'low3', 'base'))      # all ranks below 1000 in the base form ...
             jobs.append((c, 'low2'))              # ... and every declension ending for ranks below 100
         elif ck.tier == 'quick':
@@ -143,7 +143,7 @@ def run(ck: Check):
         else:
             jobs.append((c, 'low6'))
     run_parallel(ck, worker, jobs)
-    ck.bounds['ranks'] = 'quick: en 1..9999, es/pt 1..1999, fr/de/nl/it 1..999; thorough: 1..999999 (es/pt 1..1999)'
+    ck.bounds['ranks'] = 'quick: en 1..9999, es/pt 1..1999, nl/it 1..999, de/fr 1..999 in the base inflection and 1..99 in every inflection; thorough: 1..999999 (es/pt 1..1999)'
     ck.outside += ['ranks above the bound', 'en: plural/fraction forms (fifths)', 'it: x10th above 100 and ranks with both a thousands '
                    'part and a units part of at most ten (single-word forms)', 'es/pt: apocopated primer/tercer, compound single-word '
                    'forms (decimotercero)', 'de/nl/it/fr/en ranks >= 10^6']
